@@ -273,11 +273,22 @@ class C20(Check):
 
     def judge(self, cases, impl_obs, spec_obs):
         fails = []
-        shown = impl_obs
+        shown, shown_spec = impl_obs, spec_obs
+        # a reference line that ends in `??*` leaves the rest of the line open (vf expands that token only when the lengths
+        # differ): compare the specified prefix
+        def cut(sl, il):
+            st = sl.split(' ')
+            if st[-1] != '??*':
+                return sl, il
+            it = il.split(' ')
+            return ' '.join(st[:-1]), (' '.join(it[:len(st) - 1]) if len(it) >= len(st) - 1 and not il.startswith('!') else il)
+        pairs = [[cut(s[k], l) if k < len(s) else (None, l) for k, l in enumerate(o)] for s, o in zip(spec_obs, impl_obs)]
+        spec_obs = [[p[0] for p in ps if p[0] is not None] + list(s[len(ps):]) for ps, s in zip(pairs, spec_obs)]
+        impl_obs = [[p[1] for p in ps] for ps in pairs]
         impl_obs = [[self.open_fields(s[k], l) if k < len(s) else l for k, l in enumerate(o)] for s, o in zip(spec_obs, impl_obs)]
         for (i, k, reason) in super().judge(cases, impl_obs, spec_obs):
-            if k < len(shown[i]) and k < len(spec_obs[i]):
-                reason = 'spec expects `%s`, implementation gives `%s`' % (spec_obs[i][k], shown[i][k])
+            if k < len(shown[i]) and k < len(shown_spec[i]):
+                reason = 'spec expects `%s`, implementation gives `%s`' % (shown_spec[i][k], shown[i][k])
             exp = ['#'] + (spec_obs[i][k].split() if k < len(spec_obs[i]) else [])     # observation lines carry no case number here
             got = ['#'] + (impl_obs[i][k].split() if k < len(impl_obs[i]) else [])
             tag = None
